@@ -30,7 +30,7 @@ P = {
    "len(encode(v)) against the value's length for all DecodeLength zoo types incl. tuples of arity 1-18; len on arbitrary strings against the reference compact decoder (exhaustive <= 2 bytes); skip vs decode on byte strings from the C03 families for every decodable type.",
    "Reference compact decoder self-tested.", "§6 C18"),
  "C19": (True, "exploration", "property-based testing: CountedInput vs slice position / logging base input; saturation via cfg-guarded hook",
-   "count() against the wrapped slice's consumed length after success and failure for generated strings of every decodable type, against a logging base input for every wrapper stack containing CountedInput, and against a saturating model near u64::MAX through the guarded constructor.",
+   "count() against the wrapped slice's consumed length after success and failure of decode and of Decode::skip for generated strings of every decodable type, against a logging base input for every wrapper stack containing CountedInput, and against a saturating model near u64::MAX through the guarded constructor.",
    "The hook only sets the initial counter value.", "§6 C19"),
  "C06": (True, "exploration", "stateful property-based testing: operation histories interpreted against structure and model, invariant after every step",
    "Generated construction histories for VecDeque (biased to wrap the ring; all primitive element types), Vec/String capacity, BTreeMap/BTreeSet orders, LinkedList, BinaryHeap, bit-slices at every offset 0..=70 for all store/order pairs, and holder transitions; the encoding must equal the reference encoding of the logical content, a fresh copy's encoding and a second encoding after every step.",
